@@ -53,9 +53,21 @@ func (h *histProp) Plan(tier string, seed int64) []core.Segment {
 	for _, t := range h.types {
 		segs = append(segs, core.Segment{Kind: "corpus:" + t, N: h.corpusN})
 		segs = append(segs, core.Segment{Kind: t, N: h.quickN * tierScale(tier, h.thorMul)})
-		if tier == "thorough" && h.large {
-			segs = append(segs, core.Segment{Kind: "large:" + t, N: 240, Chunk: 8})
-			segs = append(segs, core.Segment{Kind: "default:" + t, N: 2, Chunk: 1})
+		if h.large {
+			sa := t == "GSAP" || t == "OSAP"
+			mid, lg, def := int64(500), int64(24), int64(1)
+			if sa {
+				mid, lg = 120, 6
+			}
+			if tier == "thorough" {
+				mid, lg, def = mid*20, lg*10, 3
+			}
+			segs = append(segs, core.Segment{Kind: "long:" + t, N: mid})
+			segs = append(segs, core.Segment{Kind: "mid:" + t, N: mid})
+			segs = append(segs, core.Segment{Kind: "large:" + t, N: lg, Chunk: 2})
+			segs = append(segs, core.Segment{Kind: "default:" + t, N: def, Chunk: 1})
+		} else {
+			segs = append(segs, core.Segment{Kind: "long:" + t, N: 300 * tierScale(tier, 20)})
 		}
 	}
 	return segs
@@ -83,10 +95,45 @@ func (h *histProp) Gen(kind string, idx int64, seed int64, tier string) core.Cas
 	}
 	var pc PCase
 	switch class {
+	case "long":
+		// long histories on small buffers: many fills, effects that
+		// accumulate over many operations
+		pc = GenPCase(r, typ, o, h.weights, 300+r.Intn(300), 4000+r.Intn(8000))
+	case "mid":
+		// buffers beyond the first allocation sizes (1 KiB .. 8 KiB), write
+		// sizes that land around the capacity steps
+		o.MaxBuf = 8200
+		o.MinBuf = 1000
+		pc = GenPCase(r, typ, o, h.weights, 60+r.Intn(60), 6000+r.Intn(20000))
+		pc.Cfg.BufferSize = []int{1000, 1017, 1018, 1024, 1025, 2041, 2048, 2055, 4096, 4103, 8192}[r.Intn(11)] + r.Intn(3)*r.Intn(700)
+		if pc.Cfg.ShrinkSize >= pc.Cfg.BufferSize {
+			pc.Cfg.ShrinkSize = pc.Cfg.BufferSize - 1
+		}
+		for i := range pc.Ops {
+			if (pc.Ops[i].K == "write" || pc.Ops[i].K == "readfrom") && pc.Ops[i].A == 0 {
+				pc.Ops[i].B = []int{1, 7, 8, 500, 508, 509, 510, 517, 520, 1000, 1017, 1024}[r.Intn(12)] + r.Intn(9)
+			}
+		}
 	case "large":
-		o.MaxBuf = 1 << 16
-		o.MinBuf = 2000
-		pc = GenPCase(r, typ, o, h.weights, 120, 30000+r.Intn(200000))
+		o.MaxBuf = 1 << 17
+		o.MinBuf = 20000
+		if typ == "GSAP" || typ == "OSAP" {
+			o.MaxBuf = 70000
+		}
+		pc = GenPCase(r, typ, o, h.weights, 120, 60000+r.Intn(200000))
+		pc.Cfg.BufferSize = []int{1<<16 - 9, 1<<16 - 8, 1<<16 - 7, 1<<16 - 1, 1 << 16, 1<<16 + 1, 1<<16 + 7, 40000, 100000}[r.Intn(9)]
+		if o.MaxBuf < pc.Cfg.BufferSize {
+			pc.Cfg.BufferSize = 1<<16 + r.Intn(3) - 1
+		}
+		if pc.Cfg.ShrinkSize >= pc.Cfg.BufferSize {
+			pc.Cfg.ShrinkSize = pc.Cfg.BufferSize / 2
+		}
+		if r.Intn(2) == 0 {
+			pc.Cfg.WindowSize = []int{1<<16 - 1, 1 << 16, 1<<16 + 1, 32768, 1 << 15}[r.Intn(5)]
+		}
+		if r.Intn(2) == 0 {
+			pc.Cfg.BlockSize = []int{1 << 16, 1<<16 + 1, 1 << 15, 4096, 70000}[r.Intn(5)]
+		}
 		// large buffers need large writes to fill
 		for i := range pc.Ops {
 			if (pc.Ops[i].K == "write" || pc.Ops[i].K == "readfrom") && pc.Ops[i].A == 0 {
@@ -282,7 +329,7 @@ func init() {
 			assumptions: []string{"the harness' byte-list expander and model of fed bytes are correct", "Write/ReadFrom counts are trusted for the model (C15 decides them)"},
 			mandatory:   []string{"blocks_with_match", "shrink_discarding", "blocks_with_match_after_shrink_or_reset", "matches_with_source_retained_across_shrink", "reset_mode2", "blocks_ntl"},
 			expected:    []string{"overlapping_matches", "reset_mode3", "matches_with_source_before_block"}},
-		types: gen.ParserTypes, quickN: 4000, thorMul: 60, corpusN: 300, large: true,
+		types: gen.ParserTypes, quickN: 12000, thorMul: 80, corpusN: 300, large: true,
 		weights: DefaultWeights,
 		newObs: func(pc *PCase, ps *PState, c *core.Case, st *core.Stats) histObserver {
 			return &c01obs{cr: commonReach{st: st}}
@@ -367,7 +414,7 @@ func init() {
 			assumptions: []string{"positions are tracked by the harness' model of the stream; WindowSize and minimum match length are taken from the explicit configuration fields (defaults via the library's SetDefaults)"},
 			mandatory:   []string{"sequences", "offset==WindowSize", "matchlen==minimum", "shrink_discarding", "offset==stream_position"},
 			expected:    []string{"offset==WindowSize-1", "matchlen==MaxMatchLen"}},
-		types: gen.ParserTypes, quickN: 4000, thorMul: 60, corpusN: 300, large: true,
+		types: gen.ParserTypes, quickN: 12000, thorMul: 80, corpusN: 300, large: true,
 		weights: HWeights{Write: 18, ReadFrom: 8, Parse: 30, ParseNTL: 10, ParseNil: 6, Shrink: 14, Reset: 1, ResetData: 2},
 		tweak: func(r *rand.Rand, pc *PCase, kind string) {
 			// windows smaller than the data so that the guard is under load
@@ -507,7 +554,7 @@ func init() {
 			assumptions: []string{"n == min(BlockSize, unparsed) is deliberately NOT asserted for a normal Parse (C03 does not state it)"},
 			mandatory:   []string{"quadrant:flags0,seqs", "quadrant:flags0,noseqs", "quadrant:ntl,seqs", "quadrant:ntl,noseqs", "empty_buffer_reports", "unparsed>BlockSize", "unparsed<BlockSize", "second_parse_of_a_fill", "ntl_blocks_with_bytes_offered_again"},
 			expected:    []string{"unparsed==BlockSize"}},
-		types: gen.ParserTypes, quickN: 4000, thorMul: 60, corpusN: 300, large: true,
+		types: gen.ParserTypes, quickN: 12000, thorMul: 80, corpusN: 300, large: true,
 		weights: HWeights{Write: 18, ReadFrom: 8, Parse: 26, ParseNTL: 22, ParseNil: 0, Shrink: 10, Reset: 1, ResetData: 2},
 		newObs: func(pc *PCase, ps *PState, c *core.Case, st *core.Stats) histObserver {
 			return &c03obs{cr: commonReach{st: st}, st: st}
@@ -596,7 +643,7 @@ func init() {
 			assumptions: []string{"matches that reference skipped bytes are counted, not required (the property grants permission only)"},
 			mandatory:   []string{"parse_nil_skips", "parse_nil_empty", "parse_nil_partial_drain", "blocks_after_skip", "matches_referencing_skipped_bytes"},
 		},
-		types: gen.ParserTypes, quickN: 4000, thorMul: 60, corpusN: 300, large: true,
+		types: gen.ParserTypes, quickN: 12000, thorMul: 80, corpusN: 300, large: true,
 		weights: HWeights{Write: 18, ReadFrom: 8, Parse: 22, ParseNTL: 8, ParseNil: 22, Shrink: 12, Reset: 1, ResetData: 1},
 		newObs: func(pc *PCase, ps *PState, c *core.Case, st *core.Stats) histObserver {
 			return &c14obs{cr: commonReach{st: st}, st: st}
